@@ -43,6 +43,7 @@ def run(ctx):
         r6(ctx, F)
         r8(ctx, F)
     ctx.attempt(r9, ctx)
+    ctx.attempt(announced_count_rule, ctx)
     ctx.attempt(r10, ctx)
     entries = ['protocol::FrameHeader::decode', 'protocol::FrameHeader::read_from', 'protocol::Message::decode',
                'protocol::Codec::read_message', 'run_delta', 'run_patch']
@@ -591,6 +592,99 @@ ALLOC_SIZED = {
 }
 DECODERS = ('bincode::deserialize', 'bincode::deserialize_from', 'ciborium::from_reader', 'serde_json::from_slice', 'serde_json::from_reader',
             'protocol::FrameHeader::decode', 'protocol::FrameHeader::read_from', 'protocol::Message::decode')
+
+
+CLAMPS = ('min', 'clamp', 'cautious', 'saturating_sub', 'checked_div')
+
+
+def announced_count_rule(ctx):
+    """A hand-written serde visitor sees `SeqAccess::size_hint()` / `MapAccess::size_hint()`: for bincode that is the raw length
+    prefix of the untrusted input.  serde's own collection visitors clamp it before reserving; one that hands it to
+    `Vec::with_capacity` / `reserve` as it is lets a few bytes of input ask for any amount of memory (capacity overflow = panic,
+    or an allocation far beyond the 16 MiB bound) before a single element has been read.  Decided per use of a size_hint in the
+    crate: the announced count reaches an allocation size only through a clamp (`min` / `clamp` / serde's `cautious`), directly
+    or inside the crate function / closure it is handed to."""
+    rid = 'C20.R11'
+    ctx.rule(rid, 'an element count announced by the input (serde size_hint) sizes an allocation only through a clamp', floor=0)
+    ALLOC = ('with_capacity', 'reserve', 'reserve_exact', 'from_elem', 'resize', 'with_capacity_in')
+
+    def clamped_fn(F, path, depth=0):
+        """a crate fn / closure whose allocations take their size only through a clamp: True / False (allocates from its
+        parameter unclamped) / None (does not allocate from it)"""
+        b = F.body(path)
+        if b is None or depth > 2:
+            return None
+        fl = flow_of(b)
+        verdict = None
+        for cb, ct in fl.calls(lambda c: c.split('::')[-1] in ALLOC):
+            so = set()
+            for a in ct['args']:
+                if a['k'] != 'const' and 'usize' in b.local_ty(a['p']['l']):
+                    so |= set(fl.origins(a, mut_calls=True))
+            from_param = any(o.kind in ('param', 'upvar') for o in so)
+            via_clamp = any(o.kind in ('call', 'comb') and str(o.key).split('::')[-1] in CLAMPS for o in so)
+            via_fn = [str(o.key) for o in so if o.kind == 'call' and F.body(str(o.key)) is not None]
+            if via_clamp or any(_has_clamp(F, f) for f in via_fn):
+                verdict = True if verdict is None else verdict
+            elif from_param:
+                return False
+        return verdict
+
+    def _has_clamp(F, path):
+        b = F.body(path)
+        return b is not None and bool(flow_of(b).calls(lambda c: c.split('::')[-1] in CLAMPS))
+
+    for cfgname, F in ctx.F.items():
+        for path, b in F.bodies.items():
+            if 'generated_contracts' in b.file:
+                continue
+            fl = flow_of(b)
+            hints = [(cb, ct) for cb, ct in fl.calls(lambda c: c.endswith('Access::size_hint')) if cb in fl.cfg.reachable()]
+            for hb, ht in hints:
+                top = path.split('::{')[0].split('::')[-1] if '<' not in path else re.sub(r"^<([\w:]+).*>::(\w+)$", r'\1::\2', path).split('::', 1)[-1]
+                key = '%s:size_hint' % top
+                bad = None
+                decided = False
+                for bi in fl.cfg.reachable():
+                    t = b.blocks[bi]['term']
+                    if t['k'] != 'call' or bi == hb:
+                        continue
+                    c = callee(t) or ''
+                    uses_hint = any(a['k'] != 'const' and any(o.kind == 'call' and o.bb == hb for o in fl.origins(a)) for a in t['args'])
+                    if not uses_hint:
+                        continue
+                    short = c.split('::')[-1]
+                    if short in ALLOC:
+                        so = set()
+                        for a in t['args']:
+                            if a['k'] != 'const':
+                                so |= set(fl.origins(a, mut_calls=True))
+                        decided = True
+                        if not any(o.kind in ('call', 'comb') and str(o.key).split('::')[-1] in CLAMPS for o in so):
+                            bad = bad or (bi, 'handed to %s as it is' % short)
+                    for a in t['args']:
+                        # a function item / closure the hint is mapped through
+                        fn = a.get('fn') if a['k'] == 'const' else None
+                        if fn and fn.split('::')[-1].split('<')[0] in ALLOC:
+                            decided = True
+                            bad = bad or (bi, 'mapped through %s' % fn.split('::')[-1])
+                        elif fn and F.body(fn) is not None:
+                            v = clamped_fn(F, fn)
+                            decided = decided or v is not None
+                            if v is False:
+                                bad = bad or (bi, 'mapped through %s, which allocates from it unclamped' % fn.split('::')[-1])
+                        elif a['k'] != 'const':
+                            for o in fl.origins(a):
+                                if o.kind == 'agg' and F.body(str(o.key)) is not None:
+                                    v = clamped_fn(F, str(o.key))
+                                    decided = decided or v is not None
+                                    if v is False:
+                                        bad = bad or (bi, 'mapped through a closure that allocates from it unclamped')
+                if bad:
+                    ctx.bad(rid, key, '%s sizes an allocation by the element count the INPUT announces (SeqAccess::size_hint, %s): for bincode that is the raw length prefix - '
+                            'a short hostile input panics with capacity overflow or reserves far more than the 16 MiB bound before any element is read' % (top, bad[1]), term_loc(b, bad[0]))
+                elif decided:
+                    ctx.ok(rid, key, 'the announced count reaches an allocation only through a clamp', term_loc(b, hb))
 
 
 def r9(ctx):
